@@ -32,6 +32,91 @@ fn describe(ls: &LeapSecond) -> String {
     )
 }
 
+/// Whatever way a fresh provider is walked — `next` in a loop, or the adapters and positioning
+/// methods of `Iterator`/`DoubleEndedIterator`, which a provider may override — it lists the same
+/// entries. Each walk starts from a fresh clone and goes in one direction only (mixing `next` and
+/// `next_back` on one instance is outside the clause, DESIGN.md section 7).
+pub fn iterator_laws<I>(fresh: &I, what: &str) -> Result<(), String>
+where
+    I: DoubleEndedIterator<Item = LeapSecond> + Clone,
+{
+    let mut base: Vec<LeapSecond> = Vec::new();
+    let mut it = fresh.clone();
+    while let Some(x) = it.next() {
+        base.push(x);
+        if base.len() > 100_000 {
+            return Err(format!("{what}: forward iteration does not end"));
+        }
+    }
+    let n = base.len();
+    let fail = |how: &str| Err(format!("{what}: {how} disagrees with walking the provider with next()"));
+    if fresh.clone().count() != n {
+        return fail("count()");
+    }
+    if fresh.clone().last() != base.last().copied() {
+        return fail("last()");
+    }
+    let (lo, hi) = fresh.size_hint();
+    if lo > n || hi.map(|h| h < n).unwrap_or(false) {
+        return fail("size_hint()");
+    }
+    let back: Vec<LeapSecond> = fresh.clone().rev().collect();
+    if back.len() != n || back.iter().rev().zip(&base).any(|(a, b)| a != b) {
+        return fail("rev()");
+    }
+    let mut ks: Vec<usize> = vec![0, 1, 2, 13, 14, 15, n / 2, n.saturating_sub(2), n.saturating_sub(1), n, n + 1];
+    ks.sort_unstable();
+    ks.dedup();
+    for &k in &ks {
+        let skipped: Vec<LeapSecond> = fresh.clone().skip(k).collect();
+        if skipped[..] != base[k.min(n)..] {
+            return fail(&format!("skip({k})"));
+        }
+        let taken: Vec<LeapSecond> = fresh.clone().take(k).collect();
+        if taken[..] != base[..k.min(n)] {
+            return fail(&format!("take({k})"));
+        }
+        let mut it = fresh.clone();
+        if it.nth(k) != base.get(k).copied() {
+            return fail(&format!("nth({k})"));
+        }
+        if k < n && it.next() != base.get(k + 1).copied() {
+            return fail(&format!("next() after nth({k})"));
+        }
+        let rskipped: Vec<LeapSecond> = fresh.clone().rev().skip(k).collect();
+        if rskipped[..] != back[k.min(n)..] {
+            return fail(&format!("rev().skip({k})"));
+        }
+        let mut it = fresh.clone();
+        if it.nth_back(k) != back.get(k).copied() {
+            return fail(&format!("nth_back({k})"));
+        }
+        if k < n && it.next_back() != back.get(k + 1).copied() {
+            return fail(&format!("next_back() after nth_back({k})"));
+        }
+    }
+    for step in [1usize, 2, 3, 14] {
+        let stepped: Vec<LeapSecond> = fresh.clone().step_by(step).collect();
+        let want: Vec<LeapSecond> = base.iter().copied().step_by(step).collect();
+        if stepped != want {
+            return fail(&format!("step_by({step})"));
+        }
+    }
+    if n > 0 {
+        let found = fresh.clone().position(|x| x == base[n - 1]);
+        let want = base.iter().position(|x| *x == base[n - 1]);
+        if found != want {
+            return fail("position()");
+        }
+        let m = fresh.clone().max_by(|a, b| a.timestamp_tai_s.partial_cmp(&b.timestamp_tai_s).unwrap());
+        let want = base.iter().copied().max_by(|a, b| a.timestamp_tai_s.partial_cmp(&b.timestamp_tai_s).unwrap());
+        if m != want {
+            return fail("max_by()");
+        }
+    }
+    Ok(())
+}
+
 /// O1: the provider holds exactly `table`, seen through all three access paths.
 pub fn o1_table_equals(p: &LeapSecondsFile, table: &[Entry]) -> Result<(), String> {
     let fwd: Vec<LeapSecond> = p.clone().collect();
@@ -81,7 +166,7 @@ pub fn o1_table_equals(p: &LeapSecondsFile, table: &[Entry]) -> Result<(), Strin
             ));
         }
     }
-    Ok(())
+    iterator_laws(p, "file provider")
 }
 
 #[derive(Default, Clone, Debug)]
@@ -412,6 +497,14 @@ pub fn o5_shipped_data_agree(shipped: &[Entry], naif: &[Entry]) -> Result<(), St
         if prov[i] != *b {
             return Err(format!("built-in provider: index {i} differs from iteration"));
         }
+    }
+    iterator_laws(&LatestLeapSeconds::default(), "built-in provider")?;
+    // the 28 IERS entries, reached the way the pinned test reaches them: skipping the 14 others
+    let skipped: Vec<LeapSecond> = LatestLeapSeconds::default().skip(builtin.len() - shipped.len()).collect();
+    if skipped.len() != shipped.len()
+        || skipped.iter().zip(shipped).any(|(ls, e)| !(ls.timestamp_tai_s == e.0 as f64 && ls.delta_at == e.1 as f64))
+    {
+        return Err("built-in provider: skip(14) does not list exactly the entries of the shipped IERS list".into());
     }
     Ok(())
 }
